@@ -209,7 +209,8 @@ def registration_model(schema):
 
 
 def shards(tier, seed):
-    items = [("sx", si, k, 4, tier) for si in range(len(seed_models())) for k in range(4)]
+    n = 4 if tier == "quick" else 16
+    items = [("sx", si, k, n, tier) for si in range(len(seed_models())) for k in range(n)]
     items += [("scalar",), ("hooks",), ("syntax",), ("valid",)]
     return items
 
@@ -235,9 +236,19 @@ def run_shard(item):
         label, seed = seed_models()[si]
         bases = [(seed, ())]
         if DEPTH[tier] >= 1:
+            level1 = []
             for kind, site, s2 in SR.neighbours(seed, kinds=("S1", "S5", "S6", "S12", "S8")):
                 if not SV.violations(s2):
-                    bases.append((s2, ((kind, site),)))
+                    level1.append((s2, ((kind, site),)))
+            bases += level1
+            if DEPTH[tier] >= 2:
+                seen = {S.print_sdl(b) for b, _ in bases}
+                for b1, trail in level1:
+                    for kind, site, s2 in SR.neighbours(b1, kinds=("S1", "S5", "S6", "S12", "S2", "S3")):
+                        key = S.print_sdl(s2)
+                        if key not in seen and not SV.violations(s2):
+                            seen.add(key)
+                            bases.append((s2, trail + ((kind, site),)))
         bases = [b for i, b in enumerate(bases) if i % n == k]
         for base, trail in bases:
             if SV.violations(base):
